@@ -1,6 +1,7 @@
 import Marwood.Lemmas.CompileVerifiesCInv
 import Marwood.Lemmas.ProcInvDefs
 import Marwood.Lemmas.MachineGarbage
+import Marwood.Vm.PrepareCheck
 /-!
 # What `prepare_eval` does to the machine: the relation `Installs`
 
@@ -28,12 +29,15 @@ sequence of allocator steps — each step is one of
 * `resym` — no change except the *representation* of the symbol table / the binding keys (both are hash maps in
   Rust; the snapshots list them sorted): same lookup function, same key set.
 
-`Q` is the requirement on new code objects. For a compiled form `e` it is `LoadedQ e fuel`: a loading (`Enc`,
+`Q` is the requirement on new code objects, relative to the heap `h` the object is put into (wave 12: the
+environment clauses of `EnvInv` talk about the cells a code object's immediates point to). For a compiled form `e` it is
+`LoadedQ e fuel h`: a loading (`Enc`,
 Vm/Encode.lean) of a code object of the compiler model's `compileRunnable e fuel`, with the two facts about formals
 that `LoadedLam` does not record (`NPArgs`) and the decoding discipline `plainBc`. When the real compiler rejects a
 form it may leave cells behind (constants, symbols, global slots, code objects of inner lambdas that compiled
-before the error): `InstallsGarbage` — the same steps with `Q := CodeOk`, the clauses the invariants state of
-EVERY lambda cell (no model code object to relate to: `compileRunnable` returns only the error); `prepare_eval`
+before the error): `InstallsGarbage` — the same steps with `Q := CodeOkH`, the clauses the invariants state of
+EVERY lambda cell, the two environment clauses `LamEnvOk` included (no model code object to relate to: `compileRunnable`
+returns only the error); `prepare_eval`
 then collects (`self.run_gc()` in the `Err` arm).
 -/
 namespace Marwood.Lemmas.Good
@@ -56,14 +60,52 @@ structure CodeOk (cl : CLambda) : Prop where
   np : NPArgs cl
   plain : Marwood.Spec.plainBc 0 (cl.bc.map eraseV) = true
 
-/-- the code objects `prepare_eval` installs for the form `e` -/
-structure LoadedQ (e : Datum) (fuel : Nat) (cl : CLambda) : Prop where
-  comp : CompiledFor e fuel cl
+/-- the two clauses `EnvInv` (Lemmas/EnvInvMain.lean) states of a lambda cell, in executable form, relative to the heap
+    `h` the code object is put into: no MOVIMM / PUSHIMM immediate points to a capturing lambda except at
+    `MOVIMM _ %acc; CLOSURE` (`TInv`); the lambda loaded at such a site has `IofEnvironment` indices below the length of
+    this object's map, and no PUSHIMM immediate is an `InstructionPointer` (`FInv`) -/
+structure LamEnvOk (h : CHeap) (cl : CLambda) : Prop where
+  imm : immTF (capAt h) cl.bc = true
+  sites : sitesFB h cl = true
+
+/-- what the machine invariants state of a lambda cell put into the heap `h` (a rejected form's garbage: no model code
+    object to relate to, the environment clauses are part of the relation) -/
+structure CodeOkH (h : CHeap) (cl : CLambda) : Prop where
+  code : CodeOk cl
+  env : LamEnvOk h cl
+
+/-- quoted data (a `datum` / `newVector` cell of the model's code) -/
+def isDataBC : BC → Bool
+  | .datum _ | .newVector => true
+  | _ => false
+
+/-- **what the loader guarantees of the immediates of a new code object `cl` — a loading of the model's `m` — in the
+    heap `h` it is put into** (`tbl` = the code-object table the `lambda id` cells of the model index):
+    * the cell loaded for quoted data does not point to a capturing lambda (it is an immediate or points to a data
+      cell `put_cell` allocated);
+    * the pointer loaded for `lambda id` points to a lambda cell holding a loading of code object `id`, and every
+      `IofEnvironment(k)` entry of THAT object's environment map carries the slot `EnvironmentMap::new_from_iof`
+      computes: `k = iof.envmap.get_slot(sym)`, i.e. slot `k` of this object's own map holds the same symbol. -/
+structure ImmLoaded (tbl : List LambdaM) (h : CHeap) (m : LambdaM) (cl : CLambda) : Prop where
+  data : ∀ (j : Nat) (b : BC) (v : VCell), m.bc[j]? = some b → isDataBC b = true → cl.bc[j]? = some v → neE h v = true
+  lam : ∀ (j id a : Nat), m.bc[j]? = some (BC.lambda id) → cl.bc[j]? = some (VCell.ptr a) →
+    ∃ m' cl', tbl[id]? = some m' ∧ lambdaAt h a = some cl' ∧ LoadedLam m' cl' ∧
+      ∀ y ∈ cl'.envmap, ∀ k, y.2 = Source.iofEnv k → ∃ z, cl.envmap[k]? = some z ∧ z.1 = y.1
+
+/-- the code objects `prepare_eval` installs for the form `e`, in the heap `h` they are put into -/
+structure LoadedQ (e : Datum) (fuel : Nat) (h : CHeap) (cl : CLambda) : Prop where
+  comp : ∃ st lam ent m, compileRunnable e fuel = .ok (st, lam, ent) ∧ (m = lam ∨ m ∈ st.lambdas ∨ m = ent) ∧
+    LoadedLam m cl ∧ ImmLoaded (st.lambdas ++ [lam]) h m cl
   np : NPArgs cl
   plain : Marwood.Spec.plainBc 0 (cl.bc.map eraseV) = true
 
-theorem LoadedQ.codeOk {e : Datum} {fuel : Nat} {cl : CLambda} (q : LoadedQ e fuel cl) : CodeOk cl := by
-  obtain ⟨a, b, c, d⟩ := compiledFor_ok q.comp
+theorem LoadedQ.compiledFor {e : Datum} {fuel : Nat} {h : CHeap} {cl : CLambda} (q : LoadedQ e fuel h cl) :
+    CompiledFor e fuel cl := by
+  obtain ⟨st, lam, ent, m, a, b, c, _⟩ := q.comp
+  exact ⟨st, lam, ent, m, a, b, c⟩
+
+theorem LoadedQ.codeOk {e : Datum} {fuel : Nat} {h : CHeap} {cl : CLambda} (q : LoadedQ e fuel h cl) : CodeOk cl := by
+  obtain ⟨a, b, c, d⟩ := compiledFor_ok q.compiledFor
   exact ⟨a, b, c, d, q.np, q.plain⟩
 
 /-- the content of a cell the loader allocates -/
@@ -73,9 +115,10 @@ inductive NewCellOk (Q : CLambda → Prop) : CCell → Prop
   | vector (es : List VCell) : NewCellOk Q (.vector es)
   | lambda {cl : CLambda} : Q cl → NewCellOk Q (.lambda cl)
 
-/-- one allocator step of the loader -/
-inductive InstStep (Q : CLambda → Prop) : CHeap → CHeap → Prop
-  | cell {h : CHeap} {c : CCell} : NewCellOk Q c → CRefsOk h c → cellPB h c = true → InstStep Q h (cput h c).1
+/-- one allocator step of the loader; `Q h` is the requirement on a code object put into the heap `h` -/
+inductive InstStep (Q : CHeap → CLambda → Prop) : CHeap → CHeap → Prop
+  | cell {h : CHeap} {c : CCell} : NewCellOk (Q h) c → CRefsOk h c → cellPB h c = true → dataEB h c = true →
+      InstStep Q h (cput h c).1
   | sym {h : CHeap} {v : VCell} {name : Text} : symOf v = some name → symLookup h name = none →
       InstStep Q h (putNew h v).1
   | glob {h : CHeap} {y : Nat} : (toHeap h).NonFree y →
@@ -85,17 +128,17 @@ inductive InstStep (Q : CLambda → Prop) : CHeap → CHeap → Prop
       InstStep Q h { h with symtab := tab, globSyms := gs }
 
 /-- a sequence of allocator steps -/
-inductive InstSteps (Q : CLambda → Prop) : CHeap → CHeap → Prop
+inductive InstSteps (Q : CHeap → CLambda → Prop) : CHeap → CHeap → Prop
   | refl (h : CHeap) : InstSteps Q h h
   | step {h h1 h2 : CHeap} : InstStep Q h h1 → InstSteps Q h1 h2 → InstSteps Q h h2
 
-theorem InstSteps.trans {Q : CLambda → Prop} {a b c : CHeap} (x : InstSteps Q a b) (y : InstSteps Q b c) :
+theorem InstSteps.trans {Q : CHeap → CLambda → Prop} {a b c : CHeap} (x : InstSteps Q a b) (y : InstSteps Q b c) :
     InstSteps Q a c := by
   induction x with
   | refl _ => exact y
   | step s _ ih => exact .step s (ih y)
 
-theorem InstSteps.one {Q : CLambda → Prop} {a b : CHeap} (x : InstStep Q a b) : InstSteps Q a b := .step x (.refl _)
+theorem InstSteps.one {Q : CHeap → CLambda → Prop} {a b : CHeap} (x : InstStep Q a b) : InstSteps Q a b := .step x (.refl _)
 
 theorem NewCellOk.mono {Q Q' : CLambda → Prop} (hq : ∀ cl, Q cl → Q' cl) {c : CCell} (x : NewCellOk Q c) :
     NewCellOk Q' c := by
@@ -105,15 +148,15 @@ theorem NewCellOk.mono {Q Q' : CLambda → Prop} (hq : ∀ cl, Q cl → Q' cl) {
   | vector es => exact .vector es
   | lambda q => exact .lambda (hq _ q)
 
-theorem InstStep.mono {Q Q' : CLambda → Prop} (hq : ∀ cl, Q cl → Q' cl) {h h' : CHeap} (x : InstStep Q h h') :
+theorem InstStep.mono {Q Q' : CHeap → CLambda → Prop} (hq : ∀ h cl, Q h cl → Q' h cl) {h h' : CHeap} (x : InstStep Q h h') :
     InstStep Q' h h' := by
   cases x with
-  | cell a b c => exact .cell (a.mono hq) b c
+  | cell a b c d => exact .cell (a.mono (hq _)) b c d
   | sym a b => exact .sym a b
   | glob a => exact .glob a
   | resym a b => exact .resym a b
 
-theorem InstSteps.mono {Q Q' : CLambda → Prop} (hq : ∀ cl, Q cl → Q' cl) {h h' : CHeap} (x : InstSteps Q h h') :
+theorem InstSteps.mono {Q Q' : CHeap → CLambda → Prop} (hq : ∀ h cl, Q h cl → Q' h cl) {h h' : CHeap} (x : InstSteps Q h h') :
     InstSteps Q' h h' := by
   induction x with
   | refl _ => exact .refl _
@@ -135,10 +178,6 @@ structure Installs (e : Datum) (fuel : Nat) (s s' : St CHeap) (entry : Nat) : Pr
     allocator steps whose code objects satisfy the clauses the invariants state of every lambda cell -/
 structure InstallsGarbage (s s' : St CHeap) : Prop where
   regs : s' = { s with heap := s'.heap }
-  steps : InstSteps CodeOk s.heap s'.heap
-
-theorem Installs.garbage {e : Datum} {fuel : Nat} {s s' : St CHeap} {entry : Nat} (i : Installs e fuel s s' entry) :
-    InstallsGarbage s s' :=
-  ⟨i.regs, i.steps.mono (fun _ q => q.codeOk)⟩
+  steps : InstSteps CodeOkH s.heap s'.heap
 
 end Marwood.Lemmas.Good
